@@ -74,6 +74,7 @@ func main() {
 		run("seq", famSeq)
 		run("fault", famFault)
 		run("crash", famCrash)
+		run("fault-crash", famFaultCrash)
 		run("conc", famConc)
 		run("treap", famTreap)
 	})
